@@ -7,9 +7,9 @@ import Circomspect.Lemmas.AliasLemmas
 namespace Circomspect.LessThanPass
 open Circomspect.SignalAssign (Acc accAlias CAcc denotes denotesL accAlias_of_denotes)
 
-theorem covered_iff (c : Curve.Curve) (ins : List Input) (v : Val) (b : Nat) :
-    covered c ins v b = true ↔ ∃ w k b2, Input.num2bits w (some k) b2 ∈ ins ∧ w.1 = v.1 ∧ Curve.rangeChecked c k = true ∧
-      (v.2 = true ∨ b2 = b) := by
+theorem covered_iff (c : Curve.Curve) (dom : Nat → Nat → Bool) (ins : List Input) (v : Val) (b : Nat) :
+    covered c dom ins v b = true ↔ ∃ w k b2, Input.num2bits w (some k) b2 ∈ ins ∧ w.1 = v.1 ∧ Curve.rangeChecked c k = true ∧
+      (v.2 = true ∨ dom b2 b = true) := by
   unfold covered
   simp only [List.any_eq_true]
   constructor
@@ -26,10 +26,11 @@ theorem covered_iff (c : Curve.Curve) (ins : List Input) (v : Val) (b : Nat) :
     exact ⟨_, hi, by simp only [Bool.and_eq_true, beq_iff_eq, Bool.or_eq_true]; exact ⟨⟨h1, h2⟩, h3⟩⟩
 
 /-- an expression is reported exactly when some assignment of it to an input of `LessThan` is not covered: no `Num2Bits` of known,
-    qualifying size has the same expression as its input — in the same basic block, if the expression reads a local variable -/
-theorem mem_reported (c : Curve.Curve) (ss : List Stmt) (t : String) :
-    t ∈ reported c ss ↔ ∃ v b, Input.lessThan v b ∈ inputs ss ∧ v.1 = t ∧
-      ¬ ∃ w k b2, Input.num2bits w (some k) b2 ∈ inputs ss ∧ w.1 = v.1 ∧ Curve.rangeChecked c k = true ∧ (v.2 = true ∨ b2 = b) := by
+    qualifying size has the same expression as its input — in a dominating basic block, if the expression reads a local variable -/
+theorem mem_reported (c : Curve.Curve) (dom : Nat → Nat → Bool) (ss : List Stmt) (t : String) :
+    t ∈ reported c dom ss ↔ ∃ v b, Input.lessThan v b ∈ inputs ss ∧ v.1 = t ∧
+      ¬ ∃ w k b2, Input.num2bits w (some k) b2 ∈ inputs ss ∧ w.1 = v.1 ∧ Curve.rangeChecked c k = true ∧
+        (v.2 = true ∨ dom b2 b = true) := by
   unfold reported
   simp only [List.mem_eraseDups, List.mem_filterMap]
   constructor
@@ -44,14 +45,14 @@ theorem mem_reported (c : Curve.Curve) (ss : List Stmt) (t : String) :
         simp only [Option.some.injEq] at h
         refine ⟨v, b, hi, h, ?_⟩
         intro hex
-        exact hc ((covered_iff c _ v b).mpr hex)
+        exact hc ((covered_iff c dom _ v b).mpr hex)
   · rintro ⟨v, b, hi, ht, hn⟩
     refine ⟨_, hi, ?_⟩
     simp only
-    have : covered c (inputs ss) v b = false := by
-      cases hcv : covered c (inputs ss) v b with
+    have : covered c dom (inputs ss) v b = false := by
+      cases hcv : covered c dom (inputs ss) v b with
       | false => rfl
-      | true => exact absurd ((covered_iff c _ v b).mp hcv) hn
+      | true => exact absurd ((covered_iff c dom _ v b).mp hcv) hn
     simp [this, ht]
 
 /-- the candidates are the instantiations recorded for a component that may be the one the access refers to -/
